@@ -213,8 +213,16 @@ def drain(c, insts=(0,)):
 
 def cfg_line(c, mode, ts, lf, val, seed):
     universe = c.nkeys + (c.cap if c.cap else 0)
-    return "cfg %s %d %d %d %d %d %d %s ts=%d lf=%s val=%s seed=%d" % (
-        c.kind, c.cap, c.ttl, c.tick, c.num, c.den, universe, mode, ts, lf, val, seed)
+    return "cfg %s %d %d %d %d %d %d %s ts=%d lf=%s val=%s seed=%d%s" % (
+        c.kind, c.cap, c.ttl, c.tick, c.num, c.den, universe, mode, ts, lf, val, seed, skew_of(c.kind, ts, seed))
+
+
+def skew_of(kind, ts, seed):
+    """ut_map/ut_set, thread_safe::yes, half of the scripts: lock-entry clock skew (harness/main.cpp) - each call
+    is entered with the clock still at the previous call's reading; the clock reaches the call's own reading
+    when the container's mutex is acquired, as if the caller had been blocked that long.  These two
+    containers read the clock under the lock, so nothing observable changes on the unchanged tree."""
+    return " skew=1" if kind in ("utmap", "utset") and ts == 1 and seed % 2 == 0 else ""
 
 
 def variant(rng):
@@ -303,8 +311,8 @@ def gen_bulk(rng, kind):
             c.emit(0, ["ins", k, v, c.allow(), 2])
     ts, lf, val, seed = variant(rng)
     universe = n
-    return ["cfg %s %d %d %d %d %d %d single ts=%d lf=%s val=%s seed=%d" % (
-        kind, c.cap, c.ttl, c.tick, c.num, c.den, universe, ts, lf, val, seed)] + c.lines + ["end"]
+    return ["cfg %s %d %d %d %d %d %d single ts=%d lf=%s val=%s seed=%d%s" % (
+        kind, c.cap, c.ttl, c.tick, c.num, c.den, universe, ts, lf, val, seed, skew_of(kind, ts, seed))] + c.lines + ["end"]
 
 
 def gen_single(rng, kind, maxops=60):
